@@ -8,7 +8,7 @@ from harness.runner import BCheck
 from scenario import bam as BAM
 
 LEVEL = "exploration"
-LEVEL_TEXT = ("Deductive part (vcgen/z3, all inputs): ignore_read skips exactly the unmapped and secondary alignments, and supplementary ones iff --tag-supplementary is off; a LOOP-BODY contract for run_haplotag's pass over one fetched region (the loop verified as a unit; what surrounds it is not): every fetched alignment is written exactly once, in fetch order, not modified after it was written, only HP/PC/PS tags ever change, and ignored or unassignable alignments end up without HP/PC/PS (attempt_add_phase_information, which uses try/except, enters through an assumed contract) (contracts/haplotag_py.py). "
+LEVEL_TEXT = ("Deductive part (vcgen/z3, all inputs): ignore_read skips exactly the unmapped and secondary alignments, and supplementary ones iff --tag-supplementary is off; a LOOP-BODY contract for run_haplotag's pass over one fetched region (the loop verified as a unit; what surrounds it is not): every fetched alignment is written exactly once, in fetch order, not modified after it was written, only HP/PC/PS tags ever change, and ignored or unassignable alignments end up without HP/PC/PS; attempt_add_phase_information (try/except KeyError executed as the branch on whether the lookup succeeds) is verified too: the flag it returns is exactly 'the alignment has its own assignment or a read cloud of its barcode starts within the linked-read cutoff', an alignment with its own assignment carries exactly (haplotype + 1, quality, phase set), one tagged through its barcode carries HP and PS of a cloud within the cutoff and no PC, nothing but HP/PC/PS ever changes and an untagged alignment is untouched (contracts/haplotag_py.py). "
               "Bounded stand-in: the real run_haplotag on generated BAMs (paired, supplementary, secondary, duplicate, placed and unplaced unmapped records, two read "
               "groups, a contig holding only unmapped-placed records, ploidy 2-4) and phased VCFs with several phase sets whose haplotype order is random: (a) the "
               "output BAM is the input, record for record and in order, except for HP/PS/PC; (b) every tag equals an independent scorer written from the statement "
